@@ -27,7 +27,7 @@ CLAIMED = {
              'C02', MM + ' + ' + KM),
     'C03': c(['K-model'],
              'bounded model checking of the per-step obligations along filter batch -> matched record -> proved block -> index writer -> query: one Storage::filter_block call on an '
-             'arbitrary small block yields exactly the ground-truth index delta (header rows always rewritten); add_fetched_header / add_fetched_tx write one atomic batch; the key encoding is '
+             'arbitrary small block yields exactly the ground-truth index delta (header rows always rewritten); add_fetched_header / add_fetched_tx write one atomic batch and a fetched transaction that is already indexed in its block keeps the recorded tx_index (a later spend deletes the live cell by it); the key encoding is '
              'injective and order-preserving; the filter batch is matched against every script whose range it touches and the filtered height only advances over verified filters (shared with C06); '
              'only proved, header-committed blocks are indexed, all blocks of a record, in block-number order (shared with C02); get_cells returns exactly the indexed cells (shared with C13). '
              'That sync delivers every block (liveness), restarts, interleavings and rollback_to_block are outside the claim', 'C03', KM),
